@@ -740,11 +740,21 @@ def f32_next_up(x):
     return _struct.unpack("f", _struct.pack("I", i))[0]
 
 
-def fbinop(op, a, b):
+def fbinop(op, a, b, ty="f32"):
+    """float operation in the type of its operands: binary32 results are rounded to binary32, binary64 results are the
+    host doubles"""
     r = _fbinop(op, a, b)
-    if isinstance(r, Fl) and r is not FTOP:
+    if ty != "f64" and isinstance(r, Fl) and r is not FTOP:
         return Fl(f32r(r.lo), f32r(r.hi), r.nan)
     return r
+
+
+def fl_round(a, ty):
+    """value of a float cast into type ty"""
+    a = fl_of(a)
+    if ty == "f32" and isinstance(a, Fl) and a is not FTOP:
+        return Fl(f32r(a.lo), f32r(a.hi), a.nan)
+    return a
 
 
 def _fbinop(op, a, b):
